@@ -1,4 +1,14 @@
 // ---- tree_node unit: storage as seen by ONE sequential call (T6), record selection, epoch summaries
+pub mod akd_core {
+    pub mod ecvrf { pub use crate::VrfError; }
+    pub mod verify { pub use crate::VerificationError; }
+}
+pub enum VrfError { PublicKey(String), SigningKey(String), Verification(String) }
+pub enum VerificationError { MembershipProof(String), NonMembershipProof(String), LookupProof(String), HistoryProof(String), Vrf(VrfError) }
+impl vstd::std_specs::convert::FromSpecImpl<StorageError> for AkdError {
+    open spec fn obeys_from_spec() -> bool { true }
+    open spec fn from_spec(e: StorageError) -> Self { AkdError::Storage(e) }
+}
 pub trait Database {}
 pub trait Storable { type StorageKey; }
 impl Storable for TreeNodeWithPreviousValue { type StorageKey = NodeKey; }
